@@ -137,13 +137,13 @@ func c02GenKernel(seed uint64, grid int) ([]desc, []string) {
 			s0, s1 := uint32(rng.Pick(10, 11, 2, 8, 128+5, 193)), uint32(rng.Pick(10, 11, 128+1, 128+7, 2))
 			add(fmt.Sprintf("sop2.%d s%d, %d, %d", op, sd, s0, s1), c02D("sop2", op, sd, s0, s1))
 		case 8, 9: // a load of some width from a random plane (sub-dword: byte offset inside the dword)
-			op := uint32(rng.Pick(16, 17, 18, 20, 16, 17, 18))
+			op := uint32(rng.Pick(16, 17, 18, 20, 16, 17, 18, 19))
 			plane := uint32(rng.Intn(c02Planes))
 			off := plane * uint32(grid) * 4
 			switch op {
 			case 16, 17:
 				off += uint32(rng.Intn(4))
-			case 18:
+			case 18, 19:
 				off += uint32(rng.Pick(0, 2))
 			}
 			add(fmt.Sprintf("flat_load.%d v%d, v[4:5] offset:%d", op, dst, off), c02D("flat", op, dst, 4, 0, off, 0x7f))
